@@ -171,7 +171,10 @@ func AppendUnzstdBytes(dst, src []byte) ([]byte, error) {
 // normalizes compression level into [0..7], so it could be used as an index
 // in *PoolMap.
 func normalizeZstdCompressLevel(level int) int {
-	if level < CompressZstdSpeedNotSet || level > CompressZstdBestCompression {
+	if level <= CompressZstdSpeedNotSet || level > CompressZstdBestCompression {
+		// CompressZstdSpeedNotSet (0, which is also CompressNoCompression as passed by
+		// CompressHandlerLevel) isn't a level the encoder accepts: zstd.NewWriter fails
+		// and the resulting panic on a stackless worker kills the process.
 		level = CompressZstdDefault
 	}
 	return level
